@@ -92,6 +92,9 @@ def shapes() -> dict[str, tuple[dict, list]]:
     S["multiout_join"] = ({"g": ["0", "1"], "u": one}, [("g", "0", "u"), ("g", "1", "u")])
     S["isolated2"] = ({"a": one, "b": one}, [])
     S["vee"] = ({"a": one, "b": one, "c": one, "k": one}, [("a", "0", "k"), ("b", "0", "k"), ("c", "0", "k")])
+    twelve = sorted(str(i) for i in range(12))        # key-sorted: "0", "1", "10", "11", "2", ...
+    S["manyout"] = ({"g": twelve, "u": one, "v": one, "w": one}, [("g", "9", "u"), ("g", "11", "u"), ("g", "0", "v"), ("g", "10", "w")])
+    S["manyin"] = ({"s": one, "g": twelve, "m": one, "u": one}, [("s", "0", "g"), ("s", "0", "m"), ("g", "9", "u")])
     S["multiout3"] = ({"g": ["0", "1", "2"], "u": one, "v": one}, [("g", "0", "u"), ("g", "2", "u"), ("g", "1", "v")])
     S["sixtasks"] = ({"a": one, "b": one, "c": one, "d": one, "p": one, "q": one},
                      [("a", "0", "b"), ("a", "0", "c"), ("b", "0", "d"), ("c", "0", "d"), ("p", "0", "q")])
@@ -133,7 +136,10 @@ def quick_instances() -> list[Instance]:
     for shape, nh, nw, ext, tag in [("diamond", 2, 2, [("s", "0"), ("k", "0")], "src_sink"), ("fanout", 2, 2, [("m1", "0"), ("m2", "0")], "sinks"),
                                     ("ladder", 2, 1, [("a", "0"), ("d", "0")], "src_sink"), ("vee", 3, 1, [("k", "0")], "sink"),
                                     ("threecomp", 3, 1, [("b", "0"), ("q", "0")], "two"), ("multiout3", 2, 1, [("g", "1"), ("u", "0")], "mid_sink"),
-                                    ("sixtasks", 2, 2, [("a", "0"), ("d", "0"), ("q", "0")], "src_sinks")]:
+                                    ("sixtasks", 2, 2, [("a", "0"), ("d", "0"), ("q", "0")], "src_sinks"),
+                                    ("manyout", 2, 1, [("u", "0"), ("v", "0"), ("w", "0"), ("g", "11")], "sinks_mid"),
+                                    ("manyout", 1, 2, [("u", "0"), ("v", "0"), ("w", "0")], "sinks"),
+                                    ("manyin", 2, 1, [("u", "0"), ("m", "0")], "sinks"), ("manyin", 1, 2, [("u", "0"), ("m", "0")], "sinks")]:
         outs, edges = S[shape]
         I.append(Instance(f"{shape}_{nh}x{nw}_{tag}", outs, edges, cluster(nh, nw), ext, trace_only=True))
     return I
@@ -144,7 +150,7 @@ def thorough_instances() -> list[Instance]:
     I = list(quick_instances())
     seen = {i.name for i in I}
     for shape, (outs, edges) in S.items():
-        if shape == "empty":
+        if shape in ("empty", "manyout", "manyin", "sixtasks"):
             continue
         alld = [(t, o) for t in outs for o in outs[t]]
         snk = sinks(outs, edges)
@@ -162,6 +168,7 @@ def thorough_instances() -> list[Instance]:
                     continue
                 seen.add(name)
                 I.append(Instance(name, outs, edges, cluster(nh, nw), ext))
+    I += [i for i in quick_instances() if i.trace_only and i.name not in seen]
     # GPU variants
     for shape in ["diamond", "fanout", "threecomp"]:
         outs, edges = S[shape]
